@@ -1,14 +1,35 @@
 (* Property C01 - overlay set operations return exactly the set-theoretic result.
-   Statements only; proofs are in Proofs/SetOpSpec_proofs.v.  Label: PARTIAL by design - the overlay
-   engine (re-noding, ghosts, half-edge structure, labelling, ring extraction) is an abstract function
-   [engine] here.  Proved, for all inputs: the glue around it (empty-operand dispatch of
-   geom/alg_set_op.go, final assembly switch of geom/dcel_extract_geometry.go) and the facts about the
-   exact reference semantics (Model/SetOpSpec.v) that the correspondence run evaluates on the
-   implementation's outputs.  NOT proved: that agreement at every witness of the arrangement implies
-   agreement at every point of Q^2 (DESIGN.md 4.1), and nothing about the float re-noding. *)
+   Statements only; proofs are in Proofs/SetOpSpec_proofs.v, SetOpSpec_arr_proofs.v,
+   SetOpSpec_suff_proofs.v and OverlayComplex_proofs.v.
+
+   What is proved, for all inputs:
+   (a) the glue of geom/alg_set_op.go (empty-operand dispatch) and of the final switch of
+       geom/dcel_extract_geometry.go, for every engine;
+   (b) the exact judgement of a result is a VERIFIED DECISION PROCEDURE, on geometries with closed rings
+       (checked executably: rings_closed_b; true of every valid polygon): with the slab-witness
+       sufficiency theorems of Proofs/Planar_slab*.v, a passing judgement means
+         - union, intersection, UnaryUnion, UnionMany: inG r p = Boolean combination of the operands'
+           memberships at EVERY point p of Q^2 (judge_everywhere, judge_many_everywhere);
+         - difference, symmetric difference: r contains the Boolean combination at every point
+           (judge_contains); r equals it at every point that lies on no segment of the arrangement and
+           whose abscissa is not an event abscissa - an open dense subset (judge_off_skeleton); at the
+           remaining points (on segments / event lines) membership in r is membership of the point or of
+           one of the cells named incident to its cell (judge_closure_everywhere).  NOT proved: that
+           the incidence annotation computed by witnesses_nb is geometric incidence (i.e. that this last
+           clause IS the topological closure); proved about it: every named cell is a witness of the same
+           arrangement (wnb_are_witnesses), the annotated list is Planar.witnesses (witnesses_nb_strip);
+         - the exact area functional of r equals that of the Boolean combination (judge_area), it is
+           non-negative, monotone and satisfies inclusion-exclusion;
+   (c) on every abstract labelled half-edge complex satisfying dcel_ok: what the selection rules of
+       dcel_extract_geometry.go extract (select_closure_*, select_remainders_uncovered,
+       select_monotone_*, select_face_ops, select_comm, face_cycle_complete).
+   Outside the model: the overlay engine itself (float re-noding with snapping, ghosts, radial sort,
+   face flood fill, ring walking).  It is tied to the property only by the correspondence run: its
+   results are judged by (b), its real DCEL is judged by dcel_ok and by the selection model (c). *)
 From Coq Require Import QArith List Bool ZArith.
 From SF Require Import Base.GeomAST Base.Outcome Base.QKernel Base.Planar Model.SetOpSpec Proofs.SetOpSpec_proofs
-  Proofs.SetOpSpec_arr_proofs.
+  Proofs.SetOpSpec_arr_proofs Model.OverlayComplex Proofs.OverlayComplex_proofs
+  Proofs.Planar_slab_base Proofs.Planar_slab_dim Proofs.SetOpSpec_suff_proofs.
 Import ListNotations.
 Open Scope Q_scope.
 
@@ -193,7 +214,7 @@ Theorem witness_vertex : forall L P w,
 Proof. exact witness_vertex_lemma. Qed.
 Print Assumptions witness_vertex.
 
-(* meaning of a passing membership judgement *)
+(* meaning of a passing membership judgement, at the witnesses (lifted to all points below) *)
 Theorem judge_sound : forall o a b r,
   v_agree (judge o a b r) = true ->
   forall w, In w (ctx_witnesses [a; b; r]) -> inG r (wpt w) = expected o a b w.
@@ -206,10 +227,156 @@ Theorem judge_many_sound : forall gs r,
 Proof. exact judge_many_sound_lemma. Qed.
 Print Assumptions judge_many_sound.
 
+(* ---------------------------------------------------------------- from the witnesses to ALL points *)
+(* union / intersection: a passing judgement is equality of the point sets at every point of Q^2 *)
+Theorem judge_everywhere : forall o a b r,
+  (o = OpUnion \/ o = OpInter) -> forallb rings_closed_b [a; b; r] = true ->
+  v_agree (judge o a b r) = true ->
+  forall p, inG r p = op_bool o (inG a p) (inG b p).
+Proof. intros o a b r Ho Hc. apply judge_everywhere_lemma; [exact Ho|apply closed_all_b; exact Hc]. Qed.
+Print Assumptions judge_everywhere.
+
+(* UnaryUnion / UnionMany *)
+Theorem judge_many_everywhere : forall gs r,
+  forallb rings_closed_b (r :: gs) = true -> v_agree (judge_many gs r) = true ->
+  forall p, inG r p = existsb (fun g => inG g p) gs.
+Proof. intros gs r Hc. apply judge_many_everywhere_lemma. apply closed_all_b. exact Hc. Qed.
+Print Assumptions judge_many_everywhere.
+
+(* all four operations: the result contains the Boolean combination at every point *)
+Theorem judge_contains : forall o a b r,
+  forallb rings_closed_b [a; b; r] = true -> v_agree (judge o a b r) = true ->
+  forall p, raw o a b p = true -> inG r p = true.
+Proof. intros o a b r Hc. apply judge_contains_lemma. apply closed_all_b. exact Hc. Qed.
+Print Assumptions judge_contains.
+
+(* difference / symmetric difference: exact equality on an open dense set - every point on no
+   segment of the arrangement whose abscissa is no event abscissa *)
+Theorem judge_off_skeleton : forall o a b r,
+  forallb rings_closed_b [a; b; r] = true -> v_agree (judge o a b r) = true ->
+  forall p,
+    on_some_seg (ctx_segs [a; b; r]) p = false ->
+    (forall x, In x (events (vertex_set (ctx_segs [a; b; r]) (ctx_pts [a; b; r]))) -> ~ fst p == x) ->
+    inG r p = raw o a b p.
+Proof. intros o a b r Hc. apply judge_off_skeleton_lemma. apply closed_all_b. exact Hc. Qed.
+Print Assumptions judge_off_skeleton.
+
+(* ... and at every point whatsoever: membership of the point, or of a cell named incident to its cell *)
+Theorem judge_closure_everywhere : forall o a b r,
+  forallb rings_closed_b [a; b; r] = true -> v_agree (judge o a b r) = true ->
+  forall p, exists wn, In wn (ctx_witnesses [a; b; r]) /\
+    same_cell (ctx_segs [a; b; r]) (vertex_set (ctx_segs [a; b; r]) (ctx_pts [a; b; r])) p (wpt wn) /\
+    inG r p = match o with
+              | OpUnion | OpInter => raw o a b p
+              | OpDiff | OpSym => raw o a b p || existsb (raw o a b) (wnb wn)
+              end.
+Proof. intros o a b r Hc. apply judge_closure_everywhere_lemma. apply closed_all_b. exact Hc. Qed.
+Print Assumptions judge_closure_everywhere.
+
+(* membership in any geometry of the arrangement is constant on the cell of a witness: in particular on
+   the open trapezoid represented by each term of the area functional *)
+Theorem cell_constant : forall gs g p w,
+  In g gs -> rings_closed_b g = true ->
+  same_cell (ctx_segs gs) (vertex_set (ctx_segs gs) (ctx_pts gs)) p w -> inG g p = inG g w.
+Proof. intros gs g p w Hg Hc. apply transfer; [exact Hg|apply rings_closed_b_sound; exact Hc]. Qed.
+Print Assumptions cell_constant.
+
+(* the exact area functional of the result equals that of the Boolean combination *)
+Theorem judge_area : forall o a b r,
+  v_agree (judge o a b r) = true ->
+  area_of (ctx_segs [a; b; r]) (ctx_pts [a; b; r]) (inG r) ==
+  area_of (ctx_segs [a; b; r]) (ctx_pts [a; b; r]) (raw o a b).
+Proof. exact judge_area_lemma. Qed.
+Print Assumptions judge_area.
+
 (* the comparison of two outputs used for the laws is symmetric (and reflexive) *)
 Theorem same_set_sym : forall g h, same_set g h = same_set h g.
 Proof. exact same_set_sym_lemma. Qed.
 Print Assumptions same_set_sym.
+
+(* ================================================================ the labelled cell complex ==== *)
+(* Model/OverlayComplex.v: the overlay's half-edge structure with its labels, abstractly; [dcel_ok] is
+   evaluated by the driver on the REAL structure of every overlay (hook VerifOverlay), and the
+   selection model below is compared with the geometry the implementation extracted from it. *)
+
+(* on every complex satisfying the invariants, the boundary cycle recorded for a face visits every
+   half edge incident to that face exactly once (so the extracted marks of extractPolygons, which walk
+   the cycle, are exactly "own face selected") *)
+Theorem face_cycle_complete : forall c j f s,
+  dcel_ok c = true -> get_f c j = Some f -> f_cycle f = Some s ->
+  exists l, orbit c s s (nE c) = Some l /\ NoDup l /\
+            forall i, In i l <-> exists e, get_e c i = Some e /\ e_face e = j.
+Proof. exact face_cycle_complete_lemma. Qed.
+Print Assumptions face_cycle_complete.
+
+(* shouldExtractLine: the [extracted] mark left by extractPolygons is implied by the two face tests *)
+Theorem sel_line_simpl : forall o c e, sel_line o c e = inc o (e_in e) && negb (adj_sel o c e).
+Proof. exact sel_line_simpl_lemma. Qed.
+Print Assumptions sel_line_simpl.
+
+(* select_closure, edges: on every complex satisfying the structural invariants, an edge belongs to
+   the result iff the label of one of its half edges is selected or a face on one of its sides is
+   selected (closure of the selected cells) *)
+Theorem select_closure_edge : forall o c i e,
+  dcel_ok c = true -> get_e c i = Some e -> res_edge o c e = edge_inc o c e || adj_sel o c e.
+Proof. exact select_edge_closure_lemma. Qed.
+Print Assumptions select_closure_edge.
+
+(* select_closure, vertices: on every complex satisfying the structural invariants, a vertex belongs
+   to the result iff its own label is selected or an edge of the result starts at it *)
+Theorem select_closure_vertex : forall o c i v,
+  dcel_ok c = true ->
+  res_vertex o c (i, v) =
+  inc o (v_in v) || existsb (fun e => Nat.eqb (e_origin e) i && res_edge o c e) (c_edges c).
+Proof. exact select_vertex_closure_lemma. Qed.
+Print Assumptions select_closure_vertex.
+
+(* lower-dimensional remainders only where not already covered by a higher-dimensional part *)
+Theorem select_remainders_uncovered : forall o c,
+  dcel_ok c = true ->
+  (forall i e, get_e c i = Some e -> line_extracted o c e = true -> adj_sel o c e = false) /\
+  (forall iv, sel_point o c iv = true -> v_covered o c (fst iv) = false).
+Proof. exact remainders_uncovered_lemma. Qed.
+Print Assumptions select_remainders_uncovered.
+
+(* the label bounds that dcel_ok checks contain label closure: face <= boundary edge <= end vertices *)
+Theorem dcel_label_closure : forall c, dcel_ok c = true -> label_closed c.
+Proof. exact labels_closed_lemma. Qed.
+Print Assumptions dcel_label_closure.
+
+(* for union and intersection the result at every edge and vertex is the plain Boolean combination
+   of that cell's own two labels (the sets are closed; no closure is involved) *)
+Theorem select_monotone_edge : forall o c i e,
+  (o = OpUnion \/ o = OpInter) -> dcel_ok c = true -> get_e c i = Some e -> res_edge o c e = edge_inc o c e.
+Proof. exact select_monotone_edge_lemma. Qed.
+Print Assumptions select_monotone_edge.
+Theorem select_monotone_vertex : forall o c i v,
+  (o = OpUnion \/ o = OpInter) -> dcel_ok c = true -> get_v c i = Some v ->
+  res_vertex o c (i, v) = inc o (v_in v).
+Proof. exact select_monotone_vertex_lemma. Qed.
+Print Assumptions select_monotone_vertex.
+
+(* face selection of the four operations = Boolean combinations of the two label families *)
+Theorem select_face_ops : forall c f,
+  let a := fst (face_in c f) in let b := snd (face_in c f) in
+  sel_face OpUnion c f = a || b /\ sel_face OpInter c f = a && b /\
+  sel_face OpDiff c f = a && negb b /\ sel_face OpSym c f = xorb a b /\
+  sel_face OpSym c f = sel_face OpDiff c f || sel_face OpDiff (swap_c c) f /\
+  sel_face OpUnion c f = sel_face OpSym c f || sel_face OpInter c f /\
+  a = sel_face OpDiff c f || sel_face OpInter c f.
+Proof. exact sel_face_ops_lemma. Qed.
+Print Assumptions select_face_ops.
+
+(* commutativity on the complex: swapping the operands selects the same faces, boundary edges,
+   lines and points for union, intersection and symmetric difference *)
+Theorem select_comm : forall o c,
+  o <> OpDiff ->
+  faces_selected o (swap_c c) = faces_selected o c /\
+  boundary_edges o (swap_c c) = boundary_edges o c /\
+  lines_selected o (swap_c c) = lines_selected o c /\
+  points_selected o (swap_c c) = points_selected o c.
+Proof. exact select_comm_lemma. Qed.
+Print Assumptions select_comm.
 
 (* ================================================================ examples (non-vacuity) ====== *)
 Definition vz (x y : Z) : vtx Q := Build_vtx (inject_Z x) (inject_Z y) 0 0.
@@ -230,6 +397,10 @@ Example judge_overlapping_squares :
 Proof. vm_compute. reflexivity. Qed.
 (* the judgement is not vacuous: a wrong result is rejected, and so is an open-set answer where the
    closure is required (LINESTRING minus an interior point is the whole line) *)
+Example judge_everywhere_example :
+  forallb rings_closed_b [exA; exB; exU] = true /\ v_agree (judge OpUnion exA exB exU) = true /\
+  forallb rings_closed_b [exA; exB; exD] = true /\ v_agree (judge OpDiff exA exB exD) = true.
+Proof. vm_compute. repeat split; reflexivity. Qed.
 Example judge_rejects_wrong :
   verdict_ok (judge OpDiff exA exB exU) = false /\ verdict_ok (judge OpUnion exA exB exD) = false.
 Proof. vm_compute. split; reflexivity. Qed.
@@ -267,4 +438,28 @@ Example f20_class_and_symptom :
   (let v := judge_many [exGC] (GPoly exP1) in
    v_agree v = false /\ forallb (fun w => in_covered_hole exGC (wpt w)) (v_bad v) = true) /\
   verdict_ok (judge_many [exGC] (GPoly (sqz 0 0 6 6))) = true.
+Proof. vm_compute. repeat split; reflexivity. Qed.
+
+(* a triangle of operand A: 3 vertices, 6 half edges (0,1,2 around the inner face; 3,4,5 their twins
+   around the outer face), 2 faces; it satisfies the invariants, and the selection model extracts the
+   inner face with its three boundary edges for union, nothing for intersection *)
+Definition exTri : complex :=
+  let a : lab := (true, false) in let n : lab := (false, false) in
+  MkC [MkV a a; MkV a a; MkV a a]
+      [MkE 0 3 1 2 0 a a a; MkE 1 4 2 0 0 a a a; MkE 2 5 0 1 0 a a a;
+       MkE 1 0 5 4 1 a n a; MkE 2 1 3 5 1 a n a; MkE 0 2 4 3 1 a n a]
+      [MkF (Some 0%nat) a; MkF (Some 3%nat) n].
+Example complex_example :
+  dcel_ok exTri = true /\
+  faces_selected OpUnion exTri = [0%nat] /\ boundary_edges OpUnion exTri = [0; 1; 2]%nat /\
+  lines_selected OpUnion exTri = [] /\ points_selected OpUnion exTri = [] /\
+  faces_selected OpInter exTri = [] /\ boundary_edges OpDiff exTri = [0; 1; 2]%nat /\
+  boundary_edges OpDiff (swap_c exTri) = [].
+Proof. vm_compute. repeat split; reflexivity. Qed.
+(* the invariants are not vacuous: a wrong twin pointer, an open face cycle, a face label that does
+   not reach its edge are all rejected *)
+Example complex_rejects :
+  dcel_ok (MkC (c_verts exTri) (MkE 0 4 1 2 0 (true,false) (true,false) (true,false) :: tl (c_edges exTri)) (c_faces exTri)) = false /\
+  dcel_ok (MkC (c_verts exTri) (MkE 0 3 2 2 0 (true,false) (true,false) (true,false) :: tl (c_edges exTri)) (c_faces exTri)) = false /\
+  dcel_ok (MkC (c_verts exTri) (c_edges exTri) [MkF (Some 0%nat) (true, true); MkF (Some 3%nat) (false, false)]) = false.
 Proof. vm_compute. repeat split; reflexivity. Qed.
